@@ -337,7 +337,13 @@ func (g *luaGen) exp(budget int) {
 		g.emit([]string{"nil", "true", "false"}[g.r.Intn(3)])
 	case 1, 2:
 		g.hit("exp.numeral")
-		g.emit(genNumerals[g.r.Intn(len(genNumerals))])
+		if g.r.Chance(1, 6) {
+			// arithmetic written without blanks: the numeral must end where the manual says it ends
+			g.hit("exp.numeral.glued")
+			g.emit(gluedArith[g.r.Intn(len(gluedArith))])
+		} else {
+			g.emit(genNumerals[g.r.Intn(len(genNumerals))])
+		}
 	case 3:
 		g.hit("exp.string")
 		g.emit(genStrings[g.r.Intn(len(genStrings))])
@@ -363,6 +369,9 @@ func (g *luaGen) exp(budget int) {
 		g.exp(budget - 1)
 	}
 }
+
+// valid expressions in which an operator directly follows a numeral
+var gluedArith = []string{"0xe+1", "0xAE-1", "0xfe+1", "0xE-0xe", "0xep-1", "0xEP+2", "1e+5", "1E-3+1", "0x1p+4", "0x.8p1-1", "3-2", "1e5+1", "7//2", "2^-1", "0xee-0xe", "1e1-1e1"}
 
 var sepChoices = []string{" ", " ", " ", " ", "\n", "\n", "\t", "\r\n", "  ", " --c\n", " --[[x]] ", "\n-- line\n", " --[==[ a\nb ]==] ", "\r"}
 
